@@ -78,6 +78,8 @@ type c13Net struct {
 
 	// store tap (every node's base store): called before and after the delegated Put
 	onPut func(n *c13Node, after bool, b *common.Beacon, err error)
+	// wire tap: every outgoing unary protocol/DKG call of every node, after it returned
+	onCall func(from *c13Node, method, target string, req any, start time.Time, err error)
 
 	epoch uint32
 	group *key.Group
@@ -187,6 +189,7 @@ func (nt *c13Net) addNodes(k int) ([]*c13Node, error) {
 			return nil, err
 		}
 		clk := clock.NewFakeClockAt(time.Now())
+		var self *c13Node
 		opts := []ConfigOption{
 			WithConfigFolder(folder),
 			WithDBStorageEngine(nt.engine),
@@ -199,7 +202,15 @@ func (nt *c13Net) addNodes(k int) ([]*c13Node, error) {
 			WithCallOption(grpc.WaitForReady(false)),
 			func(c *Config) { c.clock = clk },
 			func(c *Config) {
-				c.grpcOpts = append(c.grpcOpts, grpc.WithChainUnaryInterceptor(nt.faultInterceptor))
+				c.grpcOpts = append(c.grpcOpts, grpc.WithChainUnaryInterceptor(
+					func(ctx context.Context, method string, req, reply any, cc *grpc.ClientConn, invoker grpc.UnaryInvoker, co ...grpc.CallOption) error {
+						start := time.Now()
+						err := nt.faultInterceptor(ctx, method, req, reply, cc, invoker, co...)
+						if f := nt.onCall; f != nil && self != nil {
+							f(self, method, cc.Target(), req, start, err)
+						}
+						return err
+					}))
 			},
 		}
 		conf := NewConfig(nt.log, opts...)
@@ -231,6 +242,7 @@ func (nt *c13Net) addNodes(k int) ([]*c13Node, error) {
 		n := &c13Node{idx: idx, folder: folder, addr: addr, ctrlPort: conf.controlPort, priv: priv, daemon: daemon, bp: bp,
 			clock: clk, dkgc: dkgc, ctrl: ctrl,
 			part: &pdkg.Participant{Address: priv.Public.Addr, Key: pk, Signature: priv.Public.Signature}}
+		self = n
 		nt.mu.Lock()
 		nt.nodes = append(nt.nodes, n)
 		nt.mu.Unlock()
